@@ -79,7 +79,7 @@ ToBool(v) == CASE v.t = "bool" -> v
                [] v.t = "unspec" -> Unspec
                [] OTHER -> Err
 ToStr(v) == CASE v.t = "str" -> v
-              [] v.t = "num" -> IF NumText(v) = <<"?">> THEN Unspec ELSE Str(NumText(v))
+              [] v.t = "num" -> IF NumText(v) = <<"?">> \/ v.n = 0 THEN Unspec ELSE Str(NumText(v))     \* a computed zero may carry a sign in its text ("-0"): not compared
               [] v.t = "bool" -> Str(IF v.v THEN TrueS ELSE FalseS)
               [] v.t = "null" -> Null
               [] v.t = "unspec" -> Unspec
@@ -107,8 +107,9 @@ Arith(op, x, y) ==
   ELSE CASE op = "+" -> Num(a.n * b.d + b.n * a.d, a.d * b.d)
          [] op = "-" -> Num(a.n * b.d - b.n * a.d, a.d * b.d)
          [] op = "*" -> Num(a.n * b.n, a.d * b.d)
-         [] op = "/" -> IF b.n = 0 THEN Err ELSE Num(a.n * b.d, a.d * b.n)
-         [] op = "%" -> IF b.n = 0 THEN Err      \* remainder of the truncated division, sign of the dividend
+         [] op = "/" -> IF b.n = 0 THEN (IF a.n = 0 THEN Err ELSE Unspec)    \* x/0 is an infinity (not represented here), 0/0 is an error
+                        ELSE Num(a.n * b.d, a.d * b.n)
+         [] op = "%" -> IF b.n = 0 THEN Unspec   \* remainder of the truncated division, sign of the dividend; by zero: the language leaves it open
                         ELSE LET q == Num(a.n * b.d, a.d * b.n)
                                  tq == IF q.n >= 0 THEN q.n \div q.d ELSE -((-q.n) \div q.d)
                              IN Num(a.n * b.d - tq * b.n * a.d, a.d * b.d)
@@ -241,7 +242,12 @@ Eval(e, env) ==
                   sc(i) == IF e.kv = "" THEN Bind(env, e.v, els[i][2]) ELSE Bind(Bind(env, e.kv, els[i][1]), e.v, els[i][2])
                   inc == [i \in 1..Len(els) |-> IF e.cnd.k = "none" THEN Bool(TRUE) ELSE ToBool(Eval(e.cnd, sc(i)))]
                   on(i) == inc[i].t = "bool" /\ inc[i].v
-              IN IF \E i \in 1..Len(els) : IsErr(inc[i]) \/ inc[i].t = "null" THEN Err
+                  (* the filter is checked once before iterating, with the iteration variables not yet known:
+                     an error that does not depend on them (unknown name, null) is reported even for an empty collection *)
+                  blind == IF e.kv = "" THEN Bind(env, e.v, Unspec) ELSE Bind(Bind(env, e.kv, Unspec), e.v, Unspec)
+                  probe == IF e.cnd.k = "none" THEN Bool(TRUE) ELSE ToBool(Eval(e.cnd, blind))
+              IN IF IsErr(probe) \/ probe.t = "null" THEN Err
+                 ELSE IF \E i \in 1..Len(els) : IsErr(inc[i]) \/ inc[i].t = "null" THEN Err
                  ELSE IF \E i \in 1..Len(els) : Bad(inc[i]) THEN Unspec
                  ELSE IF e.k = "fort"
                  THEN LET body == [i \in 1..Len(els) |-> IF on(i) THEN Eval(e.body, sc(i)) ELSE Null] IN
